@@ -15,6 +15,8 @@ MOTIFS = {
     'chiral5': (['C', 'H', 'N', 'O', 'F'], [(0, 0, 0), (1.0, 0, 0), (0, 1.2, 0), (0, 0, 1.4), (0.9, 1.1, 0.3)]),
     'planar3': (['C', 'N', 'O'], [(0, 0, 0), (1.3, 0, 0), (-0.4, 1.1, 0)]),
     'collinear3': (['O', 'C', 'S'], [(0, 0, 0), (1.2, 0, 0), (2.7, 0, 0)]),
+    # site pattern B for planar3: other centre element, the two ligand atoms (same elements as in planar3) pulled in by 0.07 A
+    'planar3B': (['Si', 'N', 'O'], [(0, 0, 0), (1.23, 0, 0), (-0.376, 1.034, 0)]),
     'pair': (['C', 'H'], [(0, 0, 0), (1.09, 0, 0)]),
     'single': (['H'], [(0, 0, 0)]),
     'singleF': (['F'], [(0, 0, 0)]),
@@ -68,6 +70,7 @@ CELLS['orot'] = [[6.0, 8.0, 0.0], [-8.8, 6.6, 0.0], [0.0, 0.0, 12.0]]     # mutu
 
 POSES = {
     'id': [0, 0, 0], 'p1': [0.3, 1.1, -0.7], 'p2': [1.0, -0.4, 0.2], 'p3': [-2.1, 0.5, 2.6], 'p4': [0.05, 3.0, -1.2],
+    'p3t': [-2.098, 0.4985, 2.601],     # p3t: 0.13 degrees away from p3 (a slightly distorted framework)
     'p5': [2.2, 2.2, 0.9], 'flipx': [np.pi, 0, 0], 'flipz': [0, 0, np.pi], 'flipy': [0, np.pi, 0],
     'rz90': [0, 0, np.pi / 2], 'ry90': [0, np.pi / 2, 0], 'rz-90': [0, 0, -np.pi / 2], 'ry-90': [0, -np.pi / 2, 0], 'near-par': [0.0, 0.0, 2e-4], 'near-anti': [0, 0, np.pi - 2e-4],
 }
